@@ -1118,7 +1118,14 @@ class OdeSystem(object):
                             # The step is rolled back to the event, so its interpolant(s) are discarded as well
                             while len(self.__sol) > __pre_length:
                                 self.__sol.remove_interpolant(-1)
-                            self.integrate(roots[-1])
+                            __dt_of_call = self.dt
+                            try:
+                                self.integrate(roots[-1])
+                            except BaseException:
+                                # The re-integration up to the event works with a step of its own (at most half the distance to
+                                # the event), which is not the step of this call: a later call carries on with the latter
+                                self.dt = __dt_of_call
+                                raise
                             self.__int_status = 2
                         else:
                             if self.counter + len(roots) + 1 >= len(self.__y):
